@@ -9,6 +9,7 @@ import (
 type segment struct {
 	data []byte
 	fin  bool
+	hup  bool // the FIN comes from a full close, not from shutdown(SHUT_WR)
 	rst  bool
 }
 
@@ -23,6 +24,7 @@ type Sock struct {
 	Remote  unix.Sockaddr
 	rcvq    []byte
 	rcvFin  bool      // the peer's FIN has been delivered
+	rcvHup  bool      // ... and the peer closed the socket altogether (AF_UNIX reports EPOLLHUP then)
 	wire    []segment // in flight towards this endpoint
 	soError Errno
 	reset   bool
@@ -101,7 +103,7 @@ func (s *Sock) pollMask() uint32 {
 	if s.rcvFin || s.reset {
 		m |= unix.EPOLLRDHUP
 	}
-	if s.reset || (s.rcvFin && (s.shutWr || s.IsUnix)) {
+	if s.reset || (s.rcvFin && (s.shutWr || s.IsUnix && s.rcvHup)) {
 		m |= unix.EPOLLHUP
 	}
 	if s.soError != 0 {
@@ -238,6 +240,9 @@ func (s *Sock) Deliver(n int) {
 			n = 0
 		case sg.fin:
 			s.rcvFin = true
+			if sg.hup {
+				s.rcvHup = true
+			}
 			if gotData {
 				s.FinWithData++
 				s.k.Stats["data+FIN-in-one-arrival"]++
@@ -278,11 +283,12 @@ func (s *Sock) sendFin() {
 	}
 	if p.Harness {
 		p.rcvFin = true
+		p.rcvHup = p.rcvHup || s.closed
 		if p.file != nil {
 			p.file.wake()
 		}
 	} else {
-		p.wire = append(p.wire, segment{fin: true})
+		p.wire = append(p.wire, segment{fin: true, hup: s.closed})
 	}
 }
 
@@ -313,6 +319,16 @@ func (s *Sock) closeLocal(k *Kernel) {
 	} else if !s.shutWr {
 		s.shutWr = true
 		s.sendFin()
+	} else if s.IsUnix {
+		// FIN went out with the earlier shutdown; the close itself is what AF_UNIX reports as HUP
+		if p.Harness {
+			p.rcvHup = true
+			if p.file != nil {
+				p.file.wake()
+			}
+		} else {
+			p.wire = append(p.wire, segment{fin: true, hup: true})
+		}
 	}
 	// the peer's pending writes towards us are gone; it may see room
 	s.rcvq, s.wire = nil, nil
